@@ -944,7 +944,7 @@ def sym_rand(rnd, palette, depth=0):
 def sym_cases(tier, rnd):
     """(formula, shape) list: exhaustive small scope first (seed independent), then seeded random"""
     cases = []
-    stride4 = 32 if tier == "quick" else 1
+    stride4 = 48 if tier == "quick" else 1
     k = 0
     for pool, atoms in SYM_POOLS.items():
         shapes = {"names": ["if", "if", "not", "assign"], "cmps": ["assign", "if", "return", "ifexp"],
@@ -956,7 +956,7 @@ def sym_cases(tier, rnd):
                     cases.append((f, shapes[k % len(shapes)]))
     n_exh = len(cases)
     shapes = sorted(SYM_SHAPES)
-    for _ in range(900 if tier == "quick" else 20000):
+    for _ in range(600 if tier == "quick" else 20000):
         palette = [sym_atom(rnd) for _ in range(rnd.randint(2, 5))]
         f = sym_rand(rnd, palette)
         while f[0] not in ("and", "or", "not"):
@@ -1032,7 +1032,7 @@ def check_symmath(run, mods, rnd, wd, hist, distinct):
                 distinct.add("sym:" + " => ".join(key[:2]) + (" [truth]" if ctx else " [value]"))
                 hist["symmath:pair:" + ("truth-ctx" if ctx else "value-ctx")] += 1
     files, shards = [], []
-    SH = 800
+    SH = 2500
     for k in range(0, len(pairs), SH):
         shard = pairs[k:k + SH]
         body = ";\n ".join(f"({sf_coq(fi)}, {sf_coq(fo)}, {gbool(ctx)})" for (fi, fo, ctx, _, _) in shard)
@@ -1265,6 +1265,17 @@ SM_WITNESSES = [
     ("F17-16", "y = sum([i ^ 1 for i in range(3)])\n"), ("F17-16", "n = 5\ny = sum([i // 2 for i in range(n)])\n"),
     ("F17-16", "a = 7\ny = sum(range(a % 5))\n"), ("F17-17", "y = sum([1 << 2, 3])\n"),
     ("F17-18", "y = sum(range(5, 3))\n"), ("F17-18", "y = sum([i ** 3 for i in range(5, 2)])\n"),
+]
+
+BOOL_WITNESSES = [
+    ("F17-10", "simplify_boolean_expressions", "y = p0 and True\n"),
+    ("F17-10", "simplify_boolean_expressions", "y = p0 and False and p1\n"),
+    ("F17-10", "simplify_boolean_expressions", "y = x > 3 and p0 and x > 2\n"),
+    ("F17-10", "simplify_boolean_expressions", "y = p0 or not p0\n"),
+    ("F17-10", "simplify_boolean_expressions", "y = 0 or p1 or True\n"),
+    ("F17-11", "simplify_boolean_expressions_symmath", "y = (p0 and p1) or (p0 and not p1)\n"),
+    ("F17-11", "simplify_boolean_expressions_symmath", "y = not (p0 or (not p2 and not p0))\n"),
+    ("F17-11", "simplify_boolean_expressions_symmath", "y = (x > 1 and p1) or (x > 1 and not p1)\n"),
 ]
 
 # structural predicates of the known findings of this property (keyed by sig=)
@@ -1605,6 +1616,25 @@ def check(run: common.Run):
             pr = redundant_property_fails(mods, src)
             if pr:
                 failures.append(("remove_redundant_boolop_values", {"source": src, "problem": pr}))
+    # witnesses of the repaired defects (fixed: F17-10, F17-11, F17-13..19): they must pass from now on
+    for fid, rname, w in BOOL_WITNESSES:
+        pf = property_fails(mods, w, getattr(mods["symbolic_math"], rname))
+        if pf:
+            pf["problem"] = f"[{fid} witness] " + pf["problem"]
+            failures.append((rname, pf))
+    for fid, w in SM_WITNESSES:
+        pr = None
+        try:
+            with common.quiet():
+                new = mods["symbolic_math"].simplify_math_iterators(w)
+            e1, e2 = {}, {}
+            exec(w, e1); exec(new, e2)
+            if e1["y"] != e2["y"]:
+                pr = f"y = {e1['y']!r} became {e2['y']!r}"
+        except Exception as e:  # noqa
+            pr, new = f"{type(e).__name__}: {e}", None
+        if pr:
+            failures.append(("simplify_math_iterators", {"source": w, "output": new, "problem": f"[{fid} witness] {pr}"}))
     sum_viol = [s for s in sums if s["value"] != s["python"]]
     failures += rfailures + sfailures + mfailures
 
@@ -1659,7 +1689,7 @@ def check(run: common.Run):
 
     run.coverage.update(
         evaluations=len(items) + len(nitems) + len(ritems) + len(sums) + rstats["cases"] + rstats["zrange_cases"]
-        + rstats["sem_cases"],
+        + rstats["sem_cases"] + len(ov) + sstats["cases"] + sstats["veval_cases"] + mstats["cases"] + mstats["comp_sum_vs_cpython"],
         distinct_nontrivial=len(distinct),
         rule=("bound table: ALL ordered pairs of comparisons of x with constants {0,1,2}, 6 operators, both "
               "literal sides, x and/or (exhaustive); triples (sampled in quick, exhaustive in thorough); nested "
@@ -1672,13 +1702,26 @@ def check(run: common.Run):
               "thorough; in quick the 3-literal-argument forms are strided 1-in-3); pairs of filters under "
               "`and` / two `if`s in list/set/generator form (strided shard; thorough: all pairs for the "
               "2-argument forms); seeded random 1-3 `if`s of nested and-trees. Non-trivial = the rule "
-              "yields a rewrite; distinct by source text."),
+              "yields a rewrite; distinct by source text. symmath (sympy): ALL binary and/or trees with <= 3 leaves "
+              "(not on leaves) over three pools of 3 atoms (names / comparisons of x / mixed with an opaque call), 4 leaves "
+              "strided (quick) or all (thorough), seeded random n-ary formulas over <= 5 atoms in 11 embeddings; every "
+              "(node, replacement) the rule yields is one validated pair (distinct by text + context). sums (sympy): 11 "
+              "polynomial element expressions x literal ranges with bounds in [-2,5] (1-3 arguments, steps 2,3,-1,-2), 11 "
+              "symbolic range forms, nested / dependent generators, tuple/list/set displays, seeded random polynomials; "
+              "free variables range over [-3,6]."),
         samples=[items[0][3], items[n_pairs + 3][3], items[-1][3], c_text(nitems[-1][0]), ritems[-1][3],
                  sums[5]["source"]] + rstats.pop("samples") + sstats.pop("samples") + mstats.pop("samples"),
         exhaustive=False, exhaustive_pairs=n_pairs, histogram=dict(hist),
         correspondence_disagreements=len(disagreements), property_oracle_failures=len(failures),
         sum_cases_outside_model=len(sum_unrepresentable), constrained_range=rstats, symmath=sstats, sums=mstats,
-        unmodelled=["symbolic_math.simplify_boolean_expressions_symmath (sympy)", "symbolic_math._integrate_over (sympy)",
+        unmodelled=["sympy itself (simplify_boolean_expressions_symmath, _integrate_over, _sum_range, _sum_constants): not "
+                    "modelled -- every output the real rules produce on the generated inputs is validated per instance by "
+                    "the verified checkers (BoolEquivModel.equiv_dec_arith / vequiv_dec; SumPolyModel.sum_case_code on a box "
+                    "+ a `field` proof through T17.13 for single step-1 ranges with a fresh upper bound); nested / stepped / "
+                    "display generators and bounds that are not a fresh variable are validated ON THE BOX ONLY",
+                    "symbolic_math._truth_tested_nodes: re-implemented independently by the harness (truth_tested) which "
+                    "decides the verdict level (value where the value is observable, truth elsewhere)",
+                    "truth-context deletion of operands with side effects (if f() and 0: -> if False:) is by design of the tool",
                     "simplify_constrained_range: the template walk that selects comprehensions (single generator, "
                     "Name target, range call without keywords) and the rewrite machinery that applies the yields "
                     "(C10) are exercised by the correspondence / text oracle, not modelled"],
@@ -1688,10 +1731,21 @@ def check(run: common.Run):
             "integer semantics cmp_sem / cmpop_sem are definitions (validated by the before/after evaluation sweep)",
             "RangeModel.zrange / comp_sem (meaning of list(range(..)) and of a filtered comprehension) are "
             "definitions, validated against CPython on every run (zrange_case_ok, sem_case_ok)",
-            "range case <-> source text printer (rc_source) and the reader of the rule's yields (impl_range)"],
+            "range case <-> source text printer (rc_source) and the reader of the rule's yields (impl_range)",
+            "BoundModel.opval, BoolEquivModel.veval (the VALUE of and/or/not/comparisons over Z + bool) and "
+            "SumPolyModel.comp_sum (sum of a comprehension over ranges / displays, exact over Q) are definitions, "
+            "validated against CPython on every run (opval_case_ok, veval_case_ok, comp_sum_case_ok)",
+            "formula / arithmetic term <-> Python text printers and AST readers (sf_text, sf_of_ast, ax_of_ast, sm_source)",
+            "generated instance files: the kernel-checked proof terms produced by the `field` tactic over Q"],
     )
-    run.assumptions += ["float constants and non-integer variables are outside every theorem",
-                        "sympy-based rules are not modelled (listed under unmodelled)",
+    run.assumptions += ["float constants and non-integer variables are outside every theorem; the closed forms emitted for "
+                        "sums use `/`: they are compared exactly (Q / Fraction), Python evaluates them in floating point "
+                        "(int -> float type change, rounding)",
+                        "verdict levels: the property demands the same VALUE; the truth value suffices only where the "
+                        "value of the expression cannot be observed (tests, operands of not, unused statements) -- the "
+                        "repaired rules fire in a value context only on boolean valued expressions",
+                        "sympy-based rules are not modelled (listed under unmodelled); operands are pure and total "
+                        "(sympy reorders and merges operands)",
                         "constrained range: `range` is the builtin, non-literal bounds evaluate to ints without side "
                         "effects, the remaining filters are total and side-effect free (folding changes how often "
                         "they run -- the repository's own examples do that), conditions of several `if`s / `and` "
@@ -1716,6 +1770,41 @@ def replay(path: str) -> int:
             print("yields:", impl_range(mods, data["source"]))
         except Exception as e:  # noqa
             print("yields: crash", type(e).__name__, e)
+    if data.get("kind") == "property-oracle" and data.get("site") in ("simplify_boolean_expressions_symmath",
+                                                                       "simplify_math_iterators") and data.get("source"):
+        rule = getattr(mods["symbolic_math"], data["site"])
+        with common.quiet():
+            try:
+                new = rule(data["source"])
+            except Exception as e:  # noqa
+                new = f"<crash {type(e).__name__}: {e}>"
+        print("now:", repr(new))
+        if data["site"] == "simplify_boolean_expressions_symmath" and data.get("input"):
+            root = mods["core"].parse(data["source"])
+            tt = truth_tested(root)
+            with common.quiet():
+                ys = [(it[0], it[1]) for it in rule._fix_func(data["source"])]
+            for node, repl in ys:
+                try:
+                    fi, fo = sf_of_ast(node), sf_of_ast(repl)
+                    print("yield:", sf_text(fi), "=>", sf_text(fo), "| truth context:", id(node) in tt, "|",
+                          sym_pair_fails(fi, fo, id(node) in tt) or "same value / truth value on the box")
+                except ValueError as e:
+                    print("yield outside the formula language:", e)
+        if data["site"] == "simplify_math_iterators" and new.startswith("y = ") and data["source"].startswith("y = "):
+            names = sorted({n.id for n in ast.walk(ast.parse(data["source"])) if isinstance(n, ast.Name)} - {"sum", "range", "y"})
+            for vals in itertools.product(range(-3, 7), repeat=min(len(names), 2)):
+                env = dict(zip(names, vals))
+                try:
+                    b = eval(data["source"][4:], {"sum": sum, "range": range}, dict(env))
+                    a = sm_exact(new[4:].strip(), env)
+                except Exception as e:  # noqa
+                    continue
+                if a != b:
+                    print("differs at", env, ":", b, "vs", a)
+                    break
+            else:
+                print("same value on the box")
     if data.get("kind") == "property-oracle" and data.get("site") == "main.format_code":
         with common.quiet():
             new = mods["main"].format_code(data["source"], preserve=frozenset({"f"}))
